@@ -125,11 +125,17 @@ class _SvcMixin:
     """run(): heartbeat forever; optionally fail after `fail_after` beats."""
 
     def _setup(self, label, kwargs):
+        slow = kwargs.pop("slow_init", 0)
+        if slow:
+            _event("ctor-begin", label=label)
+            time.sleep(slow)  # a constructor that takes its time (I/O, remote calls)
         self.label = label
         self.fail_after = kwargs.pop("fail_after", None)
         self.fail_how = kwargs.pop("fail_how", "raise")
         self.period = kwargs.pop("period", 0.05)
         self.flavour_name = kwargs.pop("flavour_name", None)
+        if kwargs:
+            raise TypeError("unexpected keyword arguments %s" % sorted(kwargs))
         _event("ctor", label=label, cls=type(self).__name__, loop_running=_loop_running())
 
     def _fail(self):
